@@ -624,6 +624,11 @@ func execGen(env *sim.Env, c GenCase, prop string) CaseResult {
 		return res
 	}
 	if r.Obs.Status != "exit:0" {
+		if c.Meta.Kind == "errshape" {
+			// a converter or getter whose error result is a concrete type: refused today
+			st.Inc("n:errshape_worlds_rejected_by_the_generator")
+			return res
+		}
 		if c.Meta.Kind == "noerr" {
 			st.Inc("n:noerr_worlds_rejected_by_the_generator")
 			return res
@@ -809,16 +814,25 @@ func runGen(cfg Config, args []string, prop string) int {
 	// systematically: every misfit kind x {0,1,2 additional arguments}, repeated
 	nMisfit := 0
 	if prop == "C10" {
-		nMisfit = cfg.N(63, 630)
+		nMisfit = cfg.N(3*len(gensim.MisfitKinds), 30*len(gensim.MisfitKinds))
+	}
+	if prop == "C07" {
+		// a handful of worlds whose converter / getter returns a concrete error type
+		nMisfit = cfg.N(6, 60)
 	}
 	b := &Batch[GenCase]{Property: prop, Level: level, Cfg: cfg, Env: env, N: n + nMisfit,
 		Gen: func(i int) GenCase {
 			r := sim.Derive(cfg.Seed, "gensim", prop, i)
 			kind := "normal"
 			switch {
+			case i >= n && prop == "C07":
+				kind = fmt.Sprintf("errshape=%d", i-n)
 			case i >= n:
+				// every kind x {0,1,2 additional arguments}; every (kind, bystander) pair
+				// occurs once per round of three
 				j := i - n
-				kind = fmt.Sprintf("misfit=%s,%d", gensim.MisfitKinds[j%len(gensim.MisfitKinds)], (j/len(gensim.MisfitKinds))%3)
+				nk := len(gensim.MisfitKinds)
+				kind = fmt.Sprintf("misfit=%s,%d,%d", gensim.MisfitKinds[j%nk], (j/nk)%3, (j/nk+j%nk)%3)
 			case prop == "C07" && r.Intn(100) < 15:
 				kind = "noerr"
 			}
